@@ -9,7 +9,8 @@
 //!   cg_b_plus p r even             -> Prime::b_plus
 //!   cg_fb_bplus D size             -> `p:r:bplus(type of D),...` for the factor base the class group code builds
 //!   cg_crel_history maxlarge rels  -> emitted relations + bookkeeping of CRelationSet (paths, stored relations: hook)
-//!   (cg_h, cg_full, cg_poly take an optional last argument 0|1: force the double large prime variation)
+//!   (cg_h, cg_full, cg_poly take an optional last argument 0|1: force the double large prime variation, and
+//!    trailing `fb=N`, `large=N`, `dbl=0|1`: Preferences::{fb_size, large_factor, use_double} = ymcls --fb/--large/--use-double)
 //!   cg_poly D first count target   -> hook: the real sieve, one polynomial at a time, with the relations it produced
 use crate::util::*;
 use std::str::FromStr;
@@ -32,14 +33,7 @@ fn prefs() -> Preferences {
     p
 }
 
-/// `dbl`: "1" forces the double large prime variation (Preferences::use_double = Some(true))
-fn prefs_dbl(dbl: &str) -> Option<Preferences> {
-    let mut p = prefs();
-    if bool_of(dbl)? {
-        p.use_double = Some(true);
-    }
-    Some(p)
-}
+
 
 fn pool(threads: usize) -> Option<rayon::ThreadPool> {
     if threads <= 1 {
@@ -97,13 +91,34 @@ pub fn handle(op: &str, a: &[&str]) -> Option<String> {
         *PRERUN.lock().unwrap_or_else(|e| e.into_inner()) = Some(a.first()?.to_string());
         return handle("cg_full", &a[1..]);
     }
-    // optional last argument of cg_h / cg_full / cg_poly: force double large primes
+    // optional trailing `key=value` arguments of cg_h / cg_full / cg_poly set documented preferences:
+    //   fb=N (Preferences::fb_size, `ymcls --fb N`), large=N (large_factor, `--large`), dbl=0|1 (use_double)
+    let mut a: Vec<&str> = a.to_vec();
+    let mut pf = prefs();
+    let mut has_kv = false;
+    if matches!(op, "cg_h" | "cg_full" | "cg_poly") {
+        while let Some(last) = a.last() {
+            let Some((k, v)) = last.split_once('=') else { break };
+            match k {
+                "fb" => pf.fb_size = Some(u32_of(v)?),
+                "large" => pf.large_factor = Some(u64_of(v)?),
+                "dbl" => pf.use_double = Some(bool_of(v)?),
+                _ => return None,
+            }
+            has_kv = true;
+            a.pop();
+        }
+    }
+    // optional last positional argument of cg_h / cg_full / cg_poly: force double large primes
     let dbl_arity = match op { "cg_h" | "cg_full" => 3, "cg_poly" => 5, _ => usize::MAX };
     if a.len() == dbl_arity {
-        let p = prefs_dbl(a[a.len() - 1])?;
-        return handle_with(op, &a[..a.len() - 1], p);
+        if bool_of(a[a.len() - 1])? {
+            pf.use_double = Some(true);
+        }
+        a.pop();
     }
-    handle_with(op, a, prefs())
+    let _ = has_kv;
+    handle_with(op, &a, pf)
 }
 
 fn handle_with(op: &str, a: &[&str], pf: Preferences) -> Option<String> {
